@@ -565,7 +565,14 @@ def attach(pid, correspondence, search, replay_fn, pasts=None):
         return r
 
     def srch(ctx, prior):
-        r = search(ctx, prior)
+        # (a search of the property's own that crashes on the changed code must not hide what this family finds)
+        try:
+            r = search(ctx, prior)
+        except Exception:
+            r = run(ctx, pid, pasts)
+            if not r.oracle_failures:
+                raise
+            return r
         r.merge(run(ctx, pid, pasts))
         return r
 
